@@ -3,7 +3,7 @@ import copy, json, re
 from hypothesis import strategies as st
 
 from vf import findings, hyp
-from vf.gens import model, catalogs
+from vf.gens import model, catalogs, c09_part, c09_hist
 from vf.oracles.struct import walk
 from vf.props.c02 import site_of
 
@@ -432,6 +432,8 @@ def judge(case, col):
     from mindsdb_sql import parse_sql
     from mindsdb_sql.planner import plan_query
     from mindsdb_sql.exceptions import PlanningException
+    if 'ops' in case:
+        return judge_history(case, col)
     sql, kw = case['sql'], case['catalog']
     meta = case.get('meta') or {}
     cfg = {'src': case.get('src', '?')}
@@ -488,13 +490,157 @@ def judge(case, col):
     return out
 
 
+def nested_selects(tree):
+    """structural images (by reflection) of the SELECT / set-operation nodes below the root of a statement"""
+    from vf.oracles.struct import struct
+    out = set()
+    for n in walk(tree):
+        if n is not tree and type(n).__name__ in ('Select', 'Union', 'Intersect', 'Except'):
+            out.add(hash(struct(n)))
+    return out
+
+
+def judge_history(case, col):
+    """Several statements on ONE QueryPlanner (from_query on freshly parsed trees; prepare_steps + execute_steps, also
+    repeatedly): every plan the planner emits is judged by check_plan exactly as the plan of a single statement."""
+    import types
+    from mindsdb_sql import parse_sql
+    from mindsdb_sql.planner.query_planner import QueryPlanner
+    from mindsdb_sql.exceptions import PlanningException
+    kw, ops = case['catalog'], case['ops']
+    meta = case.get('meta') or {}
+    src = case.get('src', 'hist')
+    cfg = {'src': src}
+    classes = {'src:' + src} | {'cat:' + t for t in meta.get('cat_tags', [])} | set(meta.get('tags', []))
+    if meta.get('form'):
+        classes.add('hist:form:' + meta['form'])
+    key = (json.dumps(kw, sort_keys=True), json.dumps(ops, sort_keys=True))
+    out, seen_sig = [], set()
+    planner = QueryPlanner(**copy.deepcopy(kw))
+    cur = None                   # statement in hand: {'sql', 'stmt', 'cf', 'cte', 'needed', 'subs', 'execs'}
+    prepared = False
+    nplans = 0                   # plans emitted so far
+    earlier_subs, earlier_ctes, earlier_sql = set(), set(), set()
+    refused_before = False
+    nontrivial = False
+    trail, sample_steps = [], []
+
+    def fail(kind, site, feats, detail, sql):
+        if (kind, site) in seen_sig:
+            return
+        seen_sig.add((kind, site))
+        out.append(findings.record(kind, site, sorted(feats), cfg,
+                                   f'plan #{nplans + 1} of one planner, after [{"; ".join(trail[:-1])[:300]}]: {detail}', sql))
+
+    for op in ops:
+        kind = op['op']
+        if kind in ('plan', 'prepare'):
+            cur, prepared = None, False
+            sql = op['sql']
+            trail.append(f'{kind} {sql[:60]}')
+            try:
+                tree = parse_sql(sql, 'mindsdb')
+            except Exception as e:
+                col.excluded('not parsed: ' + site_of(e))
+                classes.add('hist:not-parsed')
+                continue
+            if catalogs.DATA_TABLE in sql:
+                catalogs.inject_data(tree)
+            stmt = type(tree).__name__
+            ctes = {str(n.name.parts[-1]).lower() for n in walk(tree) if type(n).__name__ == 'CommonTableExpression'}
+            cur = {'sql': sql, 'stmt': stmt, 'cf': case_features(tree, kw, stmt), 'cte': has_cte(tree),
+                   'needed': main_query_tables(tree), 'subs': nested_selects(tree), 'ctes': ctes, 'execs': 0}
+            if kind == 'prepare':
+                classes.add('hist:op:prepare')
+                try:
+                    c09_hist.drive_prepare(planner, tree)
+                    prepared = True
+                except Exception as e:
+                    # column discovery is not planning: a statement that cannot be prepared is not executed
+                    classes.add('hist:prepare-failed:' + type(e).__name__)
+                    cur = None
+                continue
+            emit = lambda: planner.from_query(tree)
+            opf = 'hist:op:plan'
+        else:
+            if cur is None or not prepared:
+                continue
+            trail.append(f'exec {op["v"]!r}')
+            values = list(op['v'])
+            emit = lambda: types.SimpleNamespace(steps=list(planner.execute_steps(values)))
+            opf = 'hist:op:exec'
+            cur['execs'] += 1
+        classes.add(opf)
+        sql = cur['sql']
+        hf = {opf}
+        if nplans:
+            hf.add('hist:later-plan')
+        if cur['execs'] > 1:
+            hf.add('hist:re-exec')
+            classes.add('hist:re-exec')
+        shared = bool(cur['subs'] & earlier_subs)
+        if nplans and refused_before:
+            classes.add('hist:plan-after-refusal')
+        try:
+            plan = emit()
+        except (PlanningException, NotImplementedError) as e:
+            classes.add('refused')
+            refused_before = True
+            earlier_sql.add(sql)
+            continue
+        except Exception as e:
+            classes.add('internal-error')
+            fail('internal-error', site_of(e), set(cur['cf']) | hf, f'{type(e).__name__}: {str(e)[:300]}', sql)
+            continue
+        viol, info = check_plan(plan, cur['stmt'], exempt_sink=cur['cte'], needed_tables=cur['needed'])
+        pf = info['features']
+        classes.add('planned')
+        classes.update('plan:' + f for f in pf)
+        if nplans:
+            classes.add('hist:plans>=2')
+            classes.update('hist:later:' + f for f in pf if f.startswith(('ref:', 'plan:', 'container:')))
+            if sql in earlier_sql:
+                classes.add('hist:later:stmt-planned-before')
+            if shared:
+                classes.add('hist:later:shared-nested-select')
+                if 'ref:parameter' in pf:
+                    classes.add('hist:later:shared-nested-select+ref:parameter')
+            if cur['cte']:
+                classes.add('hist:later:cte')
+            if earlier_ctes & set(cur['needed']):
+                classes.add('hist:later:reads-table-named-like-earlier-cte')
+            if len(plan.steps) >= 2:
+                nontrivial = True
+        if nplans >= 2:
+            classes.add('hist:plans>=3')
+        for k_, site, detail in viol:
+            fail(k_, site, set(cur['cf']) | set(pf) | hf, detail, sql)
+        if len(sample_steps) < 4:
+            sample_steps.append([type(s_).__name__ for s_ in plan.steps])
+        nplans += 1
+        earlier_subs |= cur['subs']
+        earlier_ctes |= cur['ctes']
+        earlier_sql.add(sql)
+    col.case(key, nontrivial, sorted(classes), {'ops': [dict(o, sql=o['sql'][:200]) if 'sql' in o else o for o in ops],
+                                                'plans': sample_steps})
+    return out
+
+
+
 # ---------------------------------------------------------------------------------------------------- cases
 
 @st.composite
 def cases(draw):
-    src = draw(st.sampled_from(['mjoin'] * 12 + ['free'] * 4 + ['free-dml'] * 4 + ['plain-dml'] * 2 + ['udf']))
-    cat = draw(catalogs.catalogs(with_models=(src == 'mjoin' or draw(st.booleans()))))
-    if src == 'mjoin':
+    src = draw(st.sampled_from(['mjoin'] * 12 + ['free'] * 4 + ['free-dml'] * 4 + ['plain-dml'] * 2 + ['udf']
+                               + ['part'] * 3 + ['hist'] * 6))
+    cat = draw(catalogs.catalogs(with_models=(src in ('mjoin', 'part', 'hist') or draw(st.booleans()))))
+    if src == 'hist':
+        h = draw(c09_hist.histories(cat))
+        return {'src': 'hist', 'ops': h['ops'], 'catalog': cat['kwargs'], 'meta': h['meta']}
+    if src == 'part':
+        q = draw(c09_part.part_queries(cat))
+        sql, meta = q['sql'], q['meta']
+    elif src == 'mjoin':
         q = draw(catalogs.model_queries(cat))
         sql, meta = q['sql'], q['meta']
     elif src == 'udf':
@@ -532,7 +678,9 @@ def fixed_cases(tier):
 
 
 def run_shard(col, k, nshards, tier, seed):
-    for i, case in enumerate(fixed_cases(tier)):
+    import itertools
+    for i, case in enumerate(itertools.chain(fixed_cases(tier), c09_part.fixed_part_cases(tier),
+                                             c09_hist.fixed_histories(tier))):
         if i % nshards == k:
             for rec in judge(case, col):
                 col.fail(rec, case)
@@ -540,4 +688,11 @@ def run_shard(col, k, nshards, tier, seed):
         col.exhaustive_parts.append('join shapes over {table, model, ts-model, sub-select, native query, injected data} up to length '
                                     f'{3 if tier == "quick" else 4} x {len(catalogs.FIXED_VARIANTS)} variants x '
                                     f'{len(catalogs.ALL_WRAPS)} statement wraps x fixed catalogs')
+        col.exhaustive_parts.append('per-model USING options: join shapes over {table, model, sub-select} with >= 1 model up to '
+                                    f'length {3 if tier == "quick" else 4} x per-model partition_size in {{none, 100, 50}} x '
+                                    'un-prefixed partition_size {none, last, first} x 2 variants x {plain, insert, where-in}; '
+                                    f'length {4 if tier == "quick" else 5}: bare / plain / no un-prefixed size')
+        col.exhaustive_parts.append(f'histories on one planner: all ordered pairs of {len(c09_hist.TEMPLATES)} statements sharing '
+                                    f'one IN and one scalar sub-select x {len(c09_hist.FORMS)} forms (plan / prepare+execute, '
+                                    'executed twice) x fixed catalogs')
     hyp.explore(col, cases(), judge, N[tier], seed, shrink_key=lambda r: (r['kind'], r['site'][:40]))
